@@ -367,9 +367,13 @@ func (g *Gen) loopAcc(env []binding, d int) r.Val {
 		g.kind("do")
 		j := "j" + g.varName()
 		inner := with(env, binding{it, tIter}, binding{j, tIter})
+		jspec := r.L(sym(j), g.Expr(TInt, env, d+1), r.L(sym("+"), sym(j), sym(it)))
+		if g.pick("nostep", 3) == 0 {
+			jspec = r.L(sym(j), g.Expr(TInt, env, d+1)) // no step form: the variable keeps its value
+		}
 		return r.L(sym("do"), r.L(
 			r.L(sym(it), int64(0), r.L(sym("1+"), sym(it))),
-			r.L(sym(j), g.Expr(TInt, env, d+1), r.L(sym("+"), sym(j), sym(it)))),
+			jspec),
 			r.L(r.L(sym("="), sym(it), int64(rapid.IntRange(0, 3).Draw(g.T, "doend"))), g.Expr(TInt, inner, d+1)),
 			g.Expr(TAny, inner, d+2))
 	default:
@@ -679,6 +683,12 @@ func (g *Gen) Defun() r.Val {
 		env = append(env, binding{p, TInt})
 	}
 	g.kind("defun")
+	// one function in three is defined inside a let and closes over its variable (read and assigned by the body)
+	captured := ""
+	if g.pick("closuredefun", 3) == 0 {
+		captured = "s" + g.varName()
+		env = append(env, binding{captured, TInt})
+	}
 	var body r.Val
 	if g.pick("recursive", 3) == 0 {
 		g.kind("recursion")
@@ -694,7 +704,13 @@ func (g *Gen) Defun() r.Val {
 		body = g.Expr(TInt, env, 2)
 	}
 	g.funs = append(g.funs, fdef{name, arity})
-	return r.L(sym("defun"), sym(name), r.L(params...), body)
+	def := r.L(sym("defun"), sym(name), r.L(params...), body)
+	if captured != "" {
+		g.kind("closure-defun")
+		g.Feat["closure"] = true
+		return r.L(sym("let"), r.L(r.L(sym(captured), g.lit())), def)
+	}
+	return def
 }
 
 // Program generates top-level forms: some defuns and a main expression.
